@@ -317,7 +317,36 @@ pub fn run(ctx: &mut Ctx, prop: &'static str) {
     ctx.count("dedicated_cases", extra.len() as u64);
     inputs.extend(extra);
 
-    let built: Vec<BuildOutcome> = inputs.par_iter().map(|(id, mods, ptrw)| l2::build_mods(id, mods, *ptrw)).collect();
+    // Every case is built right after ANOTHER input set that uses the same module and type
+    // paths with different contents (the same generator position under another seed), on the
+    // same thread: whatever pyxis keeps between builds (per-thread or process-wide tables keyed
+    // by path or type) then meets a different definition under the same key. The outcome of the
+    // earlier build is ignored; the judged build must be what the case alone describes.
+    let n_generated = pl.n_cases;
+    let decoy_extra = extra_cases(prop, seed ^ 0x5EED_DEC0, n_generated, ctx.tier);
+    let decoys: Vec<Option<Vec<(ItemPath, Module)>>> = inputs
+        .iter()
+        .enumerate()
+        .map(|(i, (id, _, _))| {
+            if i < n_generated {
+                let mut rng = Rng::derive(seed ^ 0x5EED_DEC0, 0x0400_0000 + i as u64);
+                Some(gen_prog::generate(&mut rng, &cfg_for(prop, 8, id)).mods)
+            } else {
+                decoy_extra.get(i - n_generated).filter(|d| &d.0 == id).map(|d| d.1.clone())
+            }
+        })
+        .collect();
+    ctx.count("cases_built_after_a_same-named_other_build", decoys.iter().filter(|d| d.is_some()).count() as u64);
+    let built: Vec<BuildOutcome> = inputs
+        .par_iter()
+        .zip(decoys.par_iter())
+        .map(|((id, mods, ptrw), decoy)| {
+            if let Some(d) = decoy {
+                let _ = crate::drive::build_modules(d, *ptrw, crate::drive::Opts::default());
+            }
+            l2::build_mods(id, mods, *ptrw)
+        })
+        .collect();
     let mut accepted: Vec<Built> = vec![];
     for o in built {
         ctx.eval();
